@@ -294,6 +294,9 @@ def reuse_across_frames(ctx, b, d):
                     if f is not g:
                         cases.append({"id": len(cases) + 1, "chunks": [{"file": g["save"]}], "cfg": dict(cfg, preFile=f["save"]), "g": g["name"], "f": f["name"],
                                       "ref": ref["id"]})
+                        # ... the earlier life with the other concurrency (Apply after Reset)
+                        cases.append({"id": len(cases) + 1, "chunks": [{"file": g["save"]}], "cfg": dict(cfg, preFile=f["save"], preConc=4 if conc == 1 else 1),
+                                      "g": g["name"], "f": f["name"] + "(conc %d)" % (4 if conc == 1 else 1), "ref": ref["id"]})
                         # ... and abandoned in the middle of a block (sequential earlier life: an abandoned concurrent
                         # pipeline keeps its goroutines, which is outside what C08 promises)
                         if conc == 1:
